@@ -10,6 +10,9 @@ current run -- for every value a previous run may have left there.
     z_ohm > 0 -- whatever the attribute held before (numba and numpy paths, with and without impedance switches);
   * get_voltage_init_vector(init='results'): the start vector has no NaN: buses without a previous result start flat (1.0 pu, 0 degree),
     all others start from their previous result -- previous results only change the starting point.
+
+Added later: _powerflow resets net._pd2ppc_lookups for AC and DC runs, from flat start and from results, before the conversion starts
+(run_lookup_reset: ghost = the lookups that _pd2ppc sees).
 """
 from __future__ import annotations
 
